@@ -230,6 +230,9 @@ pub fn check(sc: &Scenario, env: &mut Env) -> Result<Outcome, HarnessError> {
         if sc.lazy {
             out.probe("walkers:constructed-lazily");
         }
+        if sc.walkers.iter().enumerate().any(|(k, o)| k != wi && o.source == w.source && matches!(o.source, Source::Glob { .. })) {
+            out.probe("walkers:one-glob-value-shared");
+        }
         if sc.schedule.iter().any(|s| matches!(s, Step::Cd(_))) {
             out.probe("process:working-directory-changes-mid-run");
         }
